@@ -508,16 +508,22 @@ class DatasetProcessor:
             logger.warning("PolyA percentage is suspiciously low. IsoQuant expects non-polya-trimmed reads. "
                            "If you aim to construct transcript models, consider using --polya_requirement option.")
 
+        # the options as given by the user / the construction preset: every experiment starts from them,
+        # not from what was derived for the previous experiment
+        if not hasattr(self, "preset_polya_requirements"):
+            self.preset_polya_requirements = (self.args.require_monointronic_polya, self.args.require_monoexonic_polya)
+        preset_require_monointronic_polya, preset_require_monoexonic_polya = self.preset_polya_requirements
+
         self.args.requires_polya_for_construction = set_polya_requirement_strategy(
             polya_fraction >= self.args.polya_percentage_threshold,
             self.args.polya_requirement_strategy)
         self.args.require_monointronic_polya = set_polya_requirement_strategy(
             # do not require polyA tails for mono-intronic only if the data is reliable and polyA percentage is low
-            self.args.require_monointronic_polya or self.args.requires_polya_for_construction,
+            preset_require_monointronic_polya or self.args.requires_polya_for_construction,
             self.args.polya_requirement_strategy)
         self.args.require_monoexonic_polya = set_polya_requirement_strategy(
             # do not require polyA tails for mono-intronic only if the data is reliable and polyA percentage is low
-            self.args.require_monoexonic_polya or self.args.requires_polya_for_construction,
+            preset_require_monoexonic_polya or self.args.requires_polya_for_construction,
             self.args.polya_requirement_strategy)
 
         self.process_assigned_reads(sample, saves_file)
